@@ -46,12 +46,20 @@ var hidOf = map[string]int{"CCR": 1, "CCA": 2, "ULR": 3, "ALL": 4, "oCER": 91, "
 
 func registerApp(s *smServer, cfg string) {
 	m := s.SM
-	if cfg != "onlyall" {
+	switch cfg {
+	case "onlyall":
+	case "idx":
+		m.HandleIdx(diam.CommandIndex{AppID: 4, Code: 272, Request: true}, s.record("CCR"))
+		m.HandleIdx(diam.CommandIndex{AppID: 4, Code: 272, Request: false}, s.record("CCA"))
+		m.HandleIdx(diam.CommandIndex{AppID: 16777251, Code: 316, Request: true}, s.record("ULR"))
+	default:
 		m.HandleFunc("CCR", s.record("CCR"))
 		m.Handle("CCA", s.record("CCA"))
 		m.HandleIdx(diam.CommandIndex{AppID: 16777251, Code: 316, Request: true}, s.record("ULR"))
 	}
-	if cfg != "noall" {
+	if cfg == "idx" {
+		m.HandleIdx(diam.ALL_CMD_INDEX, s.record("ALL"))
+	} else if cfg != "noall" {
 		m.HandleFunc("ALL", s.record("ALL"))
 	}
 	// attempted overrides of the built-in processing: must be refused
@@ -81,7 +89,7 @@ func buildCEA(hbh, e2e uint32, rc uint32) []byte {
 
 func gateMsg(name string, hbh uint32) []byte {
 	switch name {
-	case "cer_ok":
+	case "cer_ok", "cer_ok_wfail":
 		return buildCER(goodCER(hbh, hbh), dict.Default)
 	case "cer_bad":
 		c := goodCER(hbh, hbh)
@@ -119,7 +127,11 @@ func runGate(id int, c *gateCase) gateLine {
 	outOff := 0
 	var cerHbH uint32 = 1
 	if c.Side == "server" {
-		s = newSMServer(srvSettings, "", func(s *smServer) { registerApp(s, c.Cfg) })
+		local := ""
+		if c.Cfg == "noaddr" {
+			local = "pipe" // no numeric port: the state machine cannot derive a Host-IP-Address
+		}
+		s = newSMServer(srvSettings, local, func(s *smServer) { registerApp(s, c.Cfg) })
 		defer s.shutdown()
 	} else {
 		s = &smServer{SM: sm.New(srvSettings), Conn: memnet.NewConn(), ch: make(chan struct{}, 64), stop: make(chan struct{})}
@@ -158,6 +170,14 @@ func runGate(id int, c *gateCase) gateLine {
 			hbh = cerHbH
 		}
 		if !s.Conn.Closed() {
+			if name == "cer_ok_wfail" {
+				// the transport refuses the next write (permanent error, nothing accepted)
+				s.Conn.OnWrite = func(int, []byte) memnet.WriteOutcome {
+					return memnet.WriteOutcome{N: 0, Err: &memnet.NetErr{Msg: "scripted write failure"}}
+				}
+			} else {
+				s.Conn.OnWrite = nil
+			}
 			s.Conn.Feed(gateMsg(name, hbh))
 			s.Conn.WaitReaderBlocked(5 * time.Second)
 			if name == "cea_fail" {
